@@ -17,6 +17,16 @@ theorem l7_verdict_ok (p : Params) (chain : List Hdr) (h : Hdr) (hok : headerVer
     refine ⟨by omega, ?_⟩
     cases hc : checkBlockHeaderContext p chain h false <;> rw [hc] at hok <;> first | rfl | cases hok
 
+theorem l7_verdict_ok_iff (p : Params) (chain : List Hdr) (h : Hdr) :
+    headerVerdict p chain h = .ok ↔
+      (0 < compactToBig h.bits ∧ compactToBig h.bits ≤ p.powLimit) ∧
+        checkBlockHeaderContext p chain h false = .ok := by
+  constructor
+  · exact l7_verdict_ok p chain h
+  · intro ⟨hr, hc⟩
+    unfold headerVerdict
+    rw [if_neg (by omega), hc]
+
 theorem l7_ctx_ok_nonempty (p : Params) (chain : List Hdr) (h : Hdr)
     (hok : checkBlockHeaderContext p chain h false = .ok) :
     chain ≠ [] ∧ h.time > calcPastMedianTime chain := by
